@@ -306,7 +306,11 @@ func (it *interp) sizeOnlySig(set *sarama.VerifSet, sig string) {
 	defer func() {
 		if p := recover(); p != nil {
 			run.Count("size-panic")
-			it.fail(sig, fmt.Sprintf("bufferBytes %d bufferCount %d MaxRequestSize %d: %v", set.BufferBytes(), set.BufferCount(), it.conf.MRS, p))
+			in := it.input()
+			if len(it.lines) > 200 {
+				in = it.lines[0] + "\n" + it.lines[1] + fmt.Sprintf("\n# ... %d more lines, last: ", len(it.lines)-2) + it.lines[len(it.lines)-1]
+			}
+			run.IOFail(sig, in, fmt.Sprintf("bufferBytes %d bufferCount %d MaxRequestSize %d: %v", set.BufferBytes(), set.BufferCount(), it.conf.MRS, p))
 		}
 	}()
 	req := set.BuildRequest()
@@ -597,10 +601,14 @@ func (g *gen) setCase() {
 	nontrivial := false
 	for i := 0; i < n; i++ {
 		if g.r.Chance(1, 15) && len(it.inSet) > 0 {
-			for k := range it.inSet {
-				it.exec(fmt.Sprintf("drop %d %d", k.t, k.p))
-				break
+			first := true
+			var k tpKey
+			for kk := range it.inSet { // smallest key: independent of map order
+				if first || kk.t < k.t || (kk.t == k.t && kk.p < k.p) {
+					k, first = kk, false
+				}
 			}
+			it.exec(fmt.Sprintf("drop %d %d", k.t, k.p))
 			continue
 		}
 		m := g.msg(it.set, c, len(tl), allTS)
